@@ -117,7 +117,7 @@ def cuts_impl(journal_file, scratch, cuts):
     """cuts: list of (m, pad). One fjv process; returns one list of lines per cut."""
     inp = "".join("%d %d\n" % c for c in cuts)
     p = subprocess.run([FJV, "readcuts", journal_file, scratch], input=inp, env=ENV, stdout=subprocess.PIPE,
-                       stderr=subprocess.PIPE, text=True, timeout=1200)
+                       stderr=subprocess.PIPE, text=True, timeout=3600)
     return _blocks(p.stdout)
 
 
